@@ -70,7 +70,12 @@ func (m *Model) UpdatePositions(positions *traits.OpenClosePositions, opts ...re
 		if preset == nil {
 			return nil, status.Errorf(codes.InvalidArgument, "preset %q not found", positions.Preset.Name)
 		}
-		positions.States = presetPositions
+		// copies: the preset's own positions stay with the model, the caller's message is written
+		// (and filtered by update masks) below
+		positions.States = make([]*traits.OpenClosePosition, len(presetPositions))
+		for i, p := range presetPositions {
+			positions.States[i] = proto.Clone(p).(*traits.OpenClosePosition)
+		}
 	}
 
 	writeRequest := resource.ComputeWriteConfig(opts...)
